@@ -319,20 +319,23 @@ def pick_e2e(ctx, cases, n):
 def e2e_sig(evs, tag):
     init = evs[0]
     pol = init["pol"]
-    asked, gone = set(), []
+    asked, gone = [], set()          # asked: peers in the order of their first request
     for e in evs:
-        if e["op"] == "PeerReq":
-            asked.add(e["p"])
-        elif e["op"] == "PeerGone" and e["p"] not in gone:
-            gone.append(e["p"])
+        if e["op"] == "PeerReq" and e["p"] not in asked:
+            asked.append(e["p"])
+        elif e["op"] == "PeerGone":
+            gone.add(e["p"])
     honest = [p for p in range(1, len(pol) + 1) if pol[p - 1] == "honest"]
     # asked peers that are still connected; the ones that never answer ("stall") are snubbed by the deadline and hold no slot
     askers_alive = sorted(p for p in asked if p not in gone and pol[p - 1] not in ("honest", "stall"))
     stalled = sorted(p for p in asked if p not in gone and pol[p - 1] == "stall")
-    left = [pol[p - 1] for p in gone if p in asked]          # asked peers in the order in which they left
-    return ("e2e tag=%s pols=%s par=%d private=%s honest_asked=%d askers_alive=%d stalled=%d left=%s"
+    left = sorted(pol[p - 1] for p in asked if p in gone)
+    # the peer that was asked last holds the slot that was handed on last (the order in which the scripted peers NOTICE
+    # that they were closed says nothing about the order in which the client closed them)
+    last_asked = pol[asked[-1] - 1] if asked else "none"
+    return ("e2e tag=%s pols=%s par=%d private=%s honest_asked=%d askers_alive=%d stalled=%d left=%s last_asked=%s"
             % (tag, ",".join(pol), init["par"], str(init["private"]).lower(), int(any(p in asked for p in honest)),
-               len(askers_alive), len(stalled), ",".join(left) or "none"))
+               len(askers_alive), len(stalled), ",".join(left) or "none", last_asked))
 
 
 def is_known(ctx, tag, sig):
